@@ -30,7 +30,34 @@ norm_num = RX.norm_num
 LibWorld = RX.World
 
 
-def make_resolver(tn, fd, wrap=None):
+class Obj:
+    """A resolved object value whose `default-resolved` fields are methods (looked up by py_gql's default resolver
+    and called with (context, info, **args)); each hands the field's ordinary resolver to the runtime, so the value
+    is deferred exactly as an explicitly registered resolver's would be."""
+
+    def __init__(self, tn, methods):
+        self.__typename__ = tn
+        self._methods = methods
+
+    def __getattr__(self, name):
+        m = self.__dict__["_methods"].get(name)
+        if m is None:
+            raise AttributeError(name)
+        return lambda ctx, info, **args: m(self, ctx, info, **args)
+
+    def __repr__(self):
+        return "Obj(%s)" % self.__typename__
+
+
+def objectify(v, methods_for):
+    if isinstance(v, list):
+        return [objectify(x, methods_for) for x in v]
+    if isinstance(v, dict) and "__typename__" in v and methods_for.get(v["__typename__"]):
+        return Obj(v["__typename__"], methods_for[v["__typename__"]])
+    return v
+
+
+def make_resolver(tn, fd, wrap=None, methods_for=None):
     from py_gql.exc import ResolverError
 
     def resolver(root, ctx, info, **args):
@@ -46,7 +73,7 @@ def make_resolver(tn, fd, wrap=None):
             tl.append(("ret", tuple(path)))
         if b[0] == "error":
             raise ResolverError(b[1], extensions=b[2])
-        return b[1]
+        return objectify(b[1], methods_for) if methods_for else b[1]
 
     resolver.__name__ = "resolve_%s_%s" % (tn, fd["name"])
     return wrap(resolver, tn, fd) if wrap else resolver
@@ -66,21 +93,42 @@ def sdl_view(spec):
     return GS.Spec(s)
 
 
-def make_schema(spec, mode="code", wrap=None):
+def make_schema(spec, mode="code", wrap=None, default_fields=None):
     """-> (schema, effective spec).  mode 'code': python API (internal enum values, python names);
-    'sdl': build_schema(text) + register_resolver."""
+    'sdl': build_schema(text) + register_resolver.
+    default_fields(typename, fieldname) -> bool: fields (of non-root types) left to py_gql's default resolver; the
+    parent value is then an Obj whose method of that name defers the usual resolver through info.runtime.submit."""
+    eff = sdl_view(spec) if mode == "sdl" else spec
+    roots = {eff.get("query"), eff.get("mutation"), eff.get("subscription")}
+    methods_for = {}
+
+    def is_default(tn, fd):
+        return default_fields is not None and tn not in roots and default_fields(tn, fd["name"])
+
+    def method(tn, fd):
+        r = make_resolver(tn, fd, wrap, methods_for)
+
+        def m(self, ctx, info, **args):
+            return info.runtime.submit(r, self, ctx, info, **args)
+        return m
+
+    for tn in eff.objects():
+        for fd in eff.fields(tn):
+            if is_default(tn, fd):
+                methods_for.setdefault(tn, {})[fd["name"]] = method(tn, fd)
     if mode == "sdl":
         from py_gql import build_schema
-        eff = sdl_view(spec)
         schema = build_schema(GS.to_sdl(eff))
         for tn in eff.objects():
             for fd in eff.fields(tn):
-                schema.register_resolver(tn, fd["name"], make_resolver(tn, fd, wrap))
+                if not is_default(tn, fd):
+                    schema.register_resolver(tn, fd["name"], make_resolver(tn, fd, wrap, methods_for))
         return schema, eff
     resolvers = {}
     for tn in spec.objects():
         for fd in spec.fields(tn):
-            resolvers[(tn, fd["name"])] = make_resolver(tn, fd, wrap)
+            if not is_default(tn, fd):
+                resolvers[(tn, fd["name"])] = make_resolver(tn, fd, wrap, methods_for)
     return GS.build_code(spec, resolvers), spec
 
 
